@@ -239,6 +239,16 @@ def scenario_for(seed, index, tier):
     # clean-up (an idempotent disconnect()) to another thread and waits for
     # it - the networking thread must not be what keeps that thread waiting
     sc['helper'] = index % 3 == 0
+    # every fifth case with a pinned version: the handler just tells another
+    # thread, which calls connect() again at once - while the failed thread
+    # may still be winding down (liveness only is judged then)
+    sc['reconnector'] = (index % 5 == 1 and not sc['helper'] and
+                         conv['allowed'] is not None and
+                         len(conv['allowed']) == 1 and k is not None)
+    if sc['reconnector']:
+        sc['server']['conns'].append(
+            {'login': [['success']],
+             'play': [['ka', 1], ['disconnect', '{"text":"second go"}']]})
     if rnd == 'segmented':
         sc['sched']['granularity'] = 'line'
     return sc
@@ -269,6 +279,8 @@ def _execute(scenario, tape, want_world=False):
             kw['initial_version'] = scenario['initial']
         def on_exception(e, i):
             errs.append(e)
+            if scenario.get('reconnector'):
+                st['want_reconnect'] = True
             if scenario.get('helper') and not st.get('helper_gone'):
                 st['req'] = st.get('req', 0) + 1
                 want = st['req']
@@ -294,6 +306,19 @@ def _execute(scenario, tape, want_world=False):
                           handle_exit=lambda: exits.append(w.sim.seq), **kw)
         if scenario.get('helper'):
             w.sim.spawn(helper, 'helper')
+
+        def reconnector():
+            w.wait_until(lambda: st.get('want_reconnect') or
+                         st.get('stop_helper'), budget=False)
+            if st.get('want_reconnect') and not st.get('stop_helper'):
+                for _ in range(200):
+                    r = w.api('reconnect', conn.connect)
+                    st['reconnect'] = r
+                    if r.ok or type(r.exc).__name__ != 'InvalidState':
+                        break
+                    w.sleep(100)
+        if scenario.get('reconnector'):
+            w.sim.spawn(reconnector, 'user1')
 
         def on_packet(p):
             pkts.append((len(w.net.conns) - 1 - st.get('off', 0), p.id,
@@ -371,6 +396,17 @@ def check(scenario, w, st, res):
     ob()
     if not st.get('quiet'):
         V.append(('C15/networking-thread-not-terminated', None))
+        return
+    if scenario.get('reconnector') and st.get('reconnect') is not None:
+        # another thread reconnected while the failure was being handled:
+        # what is judged is that everything terminated (above) and that the
+        # reconnecting call itself came back
+        ob()
+        r = st['reconnect']
+        if not r.ok and type(r.exc).__name__ != 'InvalidState':
+            V.append(('C15/reconnect-during-failure-raised:%s'
+                      % type(r.exc).__name__, str(r.exc)[:100]))
+        res.probes['reconnect-while-failure-is-handled'] = 1
         return
     call = st['call']
     if not call.ok:
